@@ -661,6 +661,27 @@ def extra_tighten_boxes(ctx, rec):
         rec.session(steps, CONCS[rep % 2])
 
 
+def extra_tighten_intdata(ctx, rec):
+    """C16: whole-number data held in integer arrays (signed, unsigned) under spans on the quarter grid, some of them
+    reaching below zero; base call and tightened calls on the same carrier"""
+    g = gen_qc.Gen(ctx.seed + 173, size=ctx.pick(6, 10))
+    r = g.r
+    for fn in ("valid", "gross"):
+        for rep in range(ctx.pick(120, 800)):
+            c = g.base(fn)
+            if fn == "valid" and c["p"]["kind"] == "time":
+                continue
+            # data: whole units >= 0 (multiples of four quarter units), no missing values (integer arrays have none)
+            c["x"] = [4 * abs(v // 2) if v != gen_qc.NA else 4 * r.randint(0, 3) for v in c["x"]]
+            if fn == "valid":
+                if c["p"]["lo"] != gen_qc.NA and rep % 2:
+                    c["p"]["lo"] -= r.choice([0, 3, 7, 12])          # the looser lower bound may lie below zero
+            steps = [({"kind": "base", "i": 0, "k": 0}, c)]
+            for k in range(3):
+                steps.append(({"kind": "tighten", "i": 0, "k": k}, g.tighten(c)))
+            rec.session(steps, dict(CONCS[1], xc=["u16", "i32", "i64", "u16"][rep % 4]))
+
+
 def long_call(g, fn, N):
     """a base call of the generator stretched to N points (its own pattern repeated, every other repetition bumped by
     one so that repetitions differ); None when the generator offers nothing suitable"""
@@ -1036,7 +1057,7 @@ PLAN = {
                     [M("tighten_a", ["gross", "valid", "spike", "roc", "flat", "loc"], ["tighten"], 3, big=True, budget=120000),
                      M("tighten_b", ["att", "dens", "speed", "clim"], ["tighten"], 2, budget=120000)]),
             "random": {"fns": NOPRESS, "count": (500, 8000), "kinds": ["tighten", "tighten", "tighten"], "size": (8, 24)},
-            "extra": [extra_tighten_boxes, extra_tighten_clim, extra_tighten_spike]},
+            "extra": [extra_tighten_boxes, extra_tighten_clim, extra_tighten_spike, extra_tighten_intdata]},
     "C17": {"mc": T([M("transforms", NOPRESS, ["shiftv", "negate", "shiftt", "shiftboth", "reverse"], 2, budget=14000),
                      M("locality", ["spike", "roc", "flat", "dens", "gross", "loc"], ["perturb"], 3, budget=10000)],
                     [M("transforms", NOPRESS, ["shiftv", "negate", "shiftt", "shiftboth", "reverse"], 3, budget=120000),
